@@ -6,6 +6,8 @@ use std::{collections::HashMap, fmt, sync::Mutex};
 use once_cell::sync::Lazy;
 
 use super::Listener;
+#[cfg(era_consensus_verif)]
+use crate::verif::net_shim as tokio;
 
 /// Queue size of the TCP listener socket.
 const LISTENER_BACKLOG: u32 = 32;
